@@ -6,6 +6,6 @@ CONSTANTS
   Vals = {"1", "2", "NaN", "+Inf", "-Inf"}
   MaxSamples = 2
   EmitMode = "all"
-INVARIANTS ExactlyInput ExactWhenNonNegative Aligned OnlyInput RejectedWhole EmitState
+INVARIANTS ExactlyInput AlignIsFloor Aligned OnlyInput RejectedWhole EmitState
 PROPERTIES Terminates
 CHECK_DEADLOCK FALSE
